@@ -409,10 +409,10 @@ func gen(r *vlib.R, n int, tier string, emit func(string)) {
 	for i := 0; i < 6; i++ {
 		pat := make([]byte, 2+r.Intn(8))
 		for j := range pat {
-			pat[j] = vlib.Pick(r, []byte{'c', 'n', 'n', 'p'})
+			pat[j] = vlib.Pick(r, []byte{'c', 'n', 'n', 'p', 's', 's'})
 		}
 		if i < 2 {
-			pat = []byte("cn")
+			pat = []byte("cncs")
 		}
 		emit(fmt.Sprintf("usrv cookie %s %s", vlib.Pick(r, []string{"udp", "tcp"}), pat))
 		n--
@@ -447,6 +447,23 @@ func gen(r *vlib.R, n int, tier string, emit func(string)) {
 				vlib.Hex(genBoundaryStream(r, drain, delta, uint16(r.Intn(60000))))))
 			n--
 		}
+	}
+	// 4b. a client that stops reading: one drain write times out partway, on a flush whose error
+	// the caller swallows (the displacing flush inside stage)
+	stalls := 10
+	if thorough {
+		stalls = 60
+	}
+	for i := 0; i < stalls; i++ {
+		var st []byte
+		id := uint16(r.Intn(60000))
+		for j, k := 0, 5+r.Intn(5); j < k; j++ {
+			id++
+			pl := 20 + r.Intn(18)
+			st = append(st, frame(scriptedPkt(id, vlib.Pick(r, []byte{kWrite, kLease}), byte(40+r.Intn(60)), r.Bytes(pl)))...)
+		}
+		emit(fmt.Sprintf("tcp stall %d %d %s", 1+r.Intn(3), vlib.Pick(r, []int{0, 1, 2, 3, 700, 3000, 8000}), vlib.Hex(st)))
+		n--
 	}
 	// 4. scripted engines, model-compared
 	for n > 0 {
